@@ -139,12 +139,18 @@ class Gen:
                 decls.append("psp: &tracing::Span")
                 attr.setdefault("skip", []).append("psp")
             parts.append("follows_from = [psp.id()]")
+        # another attribute on the function that changes what it returns: #[track_caller] - the body compares its caller's line
+        # with the line the call site passes in (boxed-future shape only: the comparison sits in the outer fn, before the async block)
+        track = bool(attr.get("track_caller")) and kind == "boxed" and boxstyle != "boxed_fn"
+        if track:
+            decls.append("line: u32")
+            attr.setdefault("skip", []).append("line")
         # (attr.rs rejects `parent` / `follows_from` written after `target`, so `target` comes last of the three)
         if attr.get("target"):
             target = "tw::t%d" % (k % 4)
             parts.append('target = "%s"' % target)
         # (`_self` is never skipped: a mis-expansion that renames it must still compile to be caught)
-        skip = [s for s in attr.get("skip", []) if (s == "psp" or s in fields) and s != "_self"]
+        skip = [s for s in attr.get("skip", []) if (s in ("psp", "line") or s in fields) and s != "_self"]
         if attr.get("skip_all"):
             parts.append("skip_all")
             fields = {}
@@ -232,12 +238,18 @@ class Gen:
                         "        async fn __helper(%s) -> %s {\n        %s\n        }\n        Box::pin(__helper(%s))\n    }") % (
                             at, nm, g2, ", ".join(outer), rty, k, ", ".join(hdecls), rty, hbody, ", ".join(names_only))
             pin = "std::boxed::Box::pin" if boxstyle == "boxed_q" else "Box::pin"
-            return ("    %s\n    pub fn %s%s(%s) -> std::pin::Pin<Box<dyn std::future::Future<Output = %s> + 'a>> {\n        effect(\"t%d:pre\");\n"
-                    "        %s(async move {\n        %s\n        })\n    }") % (at, nm, g2, ", ".join(lt_decls), rty, k, pin, bodytxt)
+            tc = ""
+            if track:
+                at = ("#[track_caller]\n    " + at) if (k % 2 == 0 or not at) else (at + "\n    #[track_caller]")
+                tc = ("        if std::panic::Location::caller().line() == line { effect(\"t%d:caller-ok\"); } else { effect(\"t%d:caller-lost\"); }\n" % (k, k))
+            return ("    %s\n    pub fn %s%s(%s) -> std::pin::Pin<Box<dyn std::future::Future<Output = %s> + 'a>> {\n        effect(\"t%d:pre\");\n%s"
+                    "        %s(async move {\n        %s\n        })\n    }") % (at, nm, g2, ", ".join(lt_decls), rty, k, tc, pin, bodytxt)
         setup = [a["setup"] for a in args]
         passes = [a["pass_"] for a in args] + ["n"]
         if "psp: &tracing::Span" in decls:
             passes.append("&env.psp")
+        if track:
+            passes.append("line!()")
         callee = "{f}"
         if recv:
             setup.append({"ref": "let o = Obj(Tok(10));", "mut": "let mut o = Obj(Tok(10));", "val": "let o = Obj(Tok(10));"}[recv])
@@ -292,6 +304,11 @@ class Gen:
             for recv in ("ref", "mut", "val"):
                 self.twin(kind, ["tok_val"], rng.choice(rets), recv=recv)
                 self.twin(kind, [], rng.choice(rets), recv=recv, attr={"skip": ["self"], "ret": "debug"})
+        # systematic: a second, behaviour-changing attribute next to the instrument attribute (either order)
+        for bk in ("boxed", "boxed_q"):
+            for args in ([], ["flag"], ["tok_val"], ["tok_val", "flag"]):
+                self.twin(bk, args, rng.choice(["value", "unit", "tok"]), attr={"track_caller": True})
+                self.twin(bk, args, "value", attr={"track_caller": True, "name": True, "level": 2})
         # systematic: async fns returning another future; the helper-fn shape with each receiver
         # (Copy arguments only: a mis-expansion that moves the arguments into the returned future must still compile to be caught)
         for args in (["flag"], ["flag"], []):
